@@ -352,7 +352,7 @@ h!(c05_q_file_data_seg, 12, {
     }
 });
 //# funcs=SegmentedFileData encode/decode; bound=63 bytes of segment metadata (the wire maximum), data 2; stubs=S3
-h!(c05_t_file_data_seg63, 68, {
+h!(c05_x_file_data_seg63, 68, {
     let flag = fss();
     rt_f(SegmentedFileData { record_continuation_state: rcs(), segment_metadata: bytes(63), offset: fsv(flag), file_data: bytes(2) }, flag);
 });
@@ -374,7 +374,7 @@ h!(c05_q_metadata_tlv_request, 12, {
     rt_p(tlv(0, 3));
 });
 //# funcs=MetadataTLV::encode/decode/encoded_len (response, message); bound=bodies {0,3}; stubs=S3,S4
-h!(c05_t_metadata_tlv_response_message, 12, {
+h!(c05_x_metadata_tlv_response_message, 12, {
     rt_p(tlv(1, 3));
     rt_p(tlv(2, 0));
     rt_p(tlv(2, 3));
@@ -402,24 +402,24 @@ h!(c05_q_metadata_names, 12, {
     }
 });
 //# funcs=MetadataPDU::encode/decode with one filestore-request option; bound=names (1,1), request names (1,1), small flag; stubs=S3,S4
-h!(c05_t_metadata_opt_request, 12, {
+h!(c05_x_metadata_opt_request, 12, {
     rt_f(md(FileSizeFlag::Small, 1, 1, vec![tlv(0, 1)]), FileSizeFlag::Small);
 });
 //# funcs=MetadataPDU::encode/decode with message / fault-handler options; bound=1 option; stubs=S3,S4
-h!(c05_t_metadata_opt_message_fault, 12, {
+h!(c05_x_metadata_opt_message_fault, 12, {
     rt_f(md(FileSizeFlag::Small, 1, 0, vec![tlv(2, 1)]), FileSizeFlag::Small);
     rt_f(md(FileSizeFlag::Large, 0, 1, vec![tlv(3, 0)]), FileSizeFlag::Large);
 });
 //# funcs=MetadataPDU::encode/decode with an entity-id option; bound=id widths 8 and 2; stubs=S3,S4
-hw!(c05_t_metadata_opt_entity_id, 12, [(8u8, 1u8), (2, 1)], {
+hw!(c05_x_metadata_opt_entity_id, 12, [(8u8, 1u8), (2, 1)], {
     rt_f(md(FileSizeFlag::Large, 0, 1, vec![tlv(5, 0)]), FileSizeFlag::Large);
 });
 //# funcs=MetadataPDU::encode/decode with two options (request,message); stubs=S3,S4
-h!(c05_t_metadata_opt_two, 12, {
+h!(c05_x_metadata_opt_two, 12, {
     rt_f(md(FileSizeFlag::Small, 1, 1, vec![tlv(0, 1), tlv(2, 1)]), FileSizeFlag::Small);
 });
 //# funcs=MetadataPDU::encode/decode with response / flow-label options; stubs=S3,S4
-h!(c05_t_metadata_opt_response_flow, 12, {
+h!(c05_x_metadata_opt_response_flow, 12, {
     rt_f(md(FileSizeFlag::Large, 1, 1, vec![tlv(1, 1)]), FileSizeFlag::Large);
     rt_f(md(FileSizeFlag::Large, 1, 0, vec![tlv(4, 1)]), FileSizeFlag::Large);
 });
@@ -439,11 +439,11 @@ h!(c05_q_finished_0, 14, {
     rt_p(fin(0));
 });
 //# funcs=Finished::encode/decode/encoded_len; bound=1 filestore response, error condition with fault location (id widths 8, 1); stubs=S3,S3b,S4
-hw!(c05_t_finished_1, 14, [(8u8, 1u8), (1, 1)], {
+hw!(c05_x_finished_1, 14, [(8u8, 1u8), (1, 1)], {
     rt_p(fin(1));
 });
 //# funcs=Finished::encode/decode/encoded_len; bound=2 filestore responses; stubs=S3,S3b,S4
-h!(c05_t_finished_2, 14, {
+h!(c05_x_finished_2, 14, {
     rt_p(fin(2));
 });
 
@@ -489,7 +489,7 @@ fn uo_wrap(v: UserOperation) {
     rt_p(v);
 }
 //# funcs=UserOperation::encode/decode/encoded_len/get_message_type (proxy operations); bound=one value of small shape per variant (1-byte ids, names <= 1); stubs=S3,S4
-h!(c05_t_uo_wrap_proxy, 12, {
+h!(c05_x_uo_wrap_proxy, 12, {
     set_widths(1, 1);
     uo_wrap(UserOperation::ProxyOperation(ProxyOperation::ProxyPutRequest(ProxyPutRequest { destination_entity_id: id(), source_filename: path(1), destination_filename: path(0) })));
     uo_wrap(UserOperation::ProxyOperation(ProxyOperation::ProxyMessageToUser(MessageToUser { message_text: bytes(1) })));
@@ -504,7 +504,7 @@ h!(c05_q_uo_wrap_small, 12, {
     uo_wrap(UserOperation::Response(UserResponse::ProxyPut(ProxyPutResponse { condition: condition(), delivery_code: delivery(), file_status: file_status() })));
 });
 //# funcs=UserOperation::encode/decode (responses); bound=1-byte ids, names <= 1; stubs=S3,S4
-h!(c05_t_uo_wrap_responses, 12, {
+h!(c05_x_uo_wrap_responses, 12, {
     set_widths(1, 1);
     uo_wrap(UserOperation::Response(UserResponse::ProxyFileStore(fs_response(1, 0, 1))));
     uo_wrap(UserOperation::Response(UserResponse::DirectoryListing(DirectoryListingResponse { response_code: listing_code(), directory_name: path(1), directory_filename: path(0) })));
@@ -513,7 +513,7 @@ h!(c05_t_uo_wrap_responses, 12, {
     uo_wrap(UserOperation::Response(UserResponse::RemoteResume(RemoteResumeResponse { suspend_indication: kani::any(), transaction_status: tx_status(), source_entity_id: id(), transaction_sequence_number: id2() })));
 });
 //# funcs=UserOperation::encode/decode (requests, originating id); bound=1-byte ids, names <= 1; stubs=S3,S4
-h!(c05_t_uo_wrap_requests, 12, {
+h!(c05_x_uo_wrap_requests, 12, {
     set_widths(1, 1);
     uo_wrap(UserOperation::OriginatingTransactionIDMessage(OriginatingTransactionIDMessage { source_entity_id: id(), transaction_sequence_number: id2() }));
     uo_wrap(UserOperation::Request(UserRequest::DirectoryListing(DirectoryListingRequest { directory_name: path(1), directory_filename: path(0) })));
@@ -522,7 +522,7 @@ h!(c05_t_uo_wrap_requests, 12, {
     uo_wrap(UserOperation::Request(UserRequest::RemoteResume(RemoteResumeRequest { source_entity_id: id(), transaction_sequence_number: id2() })));
 });
 //# funcs=UserOperation::encode/decode (SFO messages that can be built outside the crate); stubs=S3,S4
-h!(c05_t_uo_wrap_sfo, 12, {
+h!(c05_x_uo_wrap_sfo, 12, {
     uo_wrap(UserOperation::SFOMessageToUser(MessageToUser { message_text: bytes(1) }));
     uo_wrap(UserOperation::SFOFlowLabel(FlowLabel { value: bytes(1) }));
     uo_wrap(UserOperation::SFOFaultHandlerOverride(FaultHandlerOverride { fault_handler_code: handler_code() }));
@@ -603,11 +603,11 @@ h!(#[kani::stub(cfdp_core::pdu::PDUPayload::encode, payload_encode_stub)] c05_q_
     widths(&[(1u8, 8u8)], || encode_side_cases(CRCFlag::NotPresent, FileSizeFlag::Large, 7));
 });
 //# funcs=PDU::encode,PDU::encoded_len,PDUHeader::encode,crc16_ibm_3740; bound=ACK / KeepAlive / file data payloads, id widths (1,8), CRC on (12 GB were not enough in the quick tier); stubs=S3,S7
-h!(#[kani::stub(cfdp_core::pdu::PDUPayload::encode, payload_encode_stub)] c05_t_pdu_encode_side_crc_wide, 40, {
+h!(#[kani::stub(cfdp_core::pdu::PDUPayload::encode, payload_encode_stub)] c05_x_pdu_encode_side_crc_wide, 40, {
     widths(&[(1u8, 8u8)], || encode_side_cases(CRCFlag::Present, FileSizeFlag::Small, 7));
 });
 //# funcs=PDU::encode,PDU::encoded_len,PDUHeader::encode,crc16_ibm_3740; bound=as above, id widths (8,2), CRC on+small and CRC off+large; stubs=S3,S7
-h!(#[kani::stub(cfdp_core::pdu::PDUPayload::encode, payload_encode_stub)] c05_t_pdu_encode_side_wide, 40, {
+h!(#[kani::stub(cfdp_core::pdu::PDUPayload::encode, payload_encode_stub)] c05_x_pdu_encode_side_wide, 40, {
     widths(&[(8u8, 2u8)], || {
         encode_side_cases(CRCFlag::Present, FileSizeFlag::Small, 7);
         encode_side_cases(CRCFlag::NotPresent, FileSizeFlag::Large, 7);
